@@ -88,6 +88,10 @@ def run(ctx):
     C01._frame(ctx, py)
     C01._bounds(ctx, py)
 
+    # frame of the modules under contract (no state kept between calls, arguments left alone): same analysis as C19
+    from props import C19 as _C19
+    ctx.guard(_C19.frame_obligations, ctx, py, "C02", {'_numba_integrate', 'strapdown'})
+
 
 # -----------------------------------------------------------------------------------------------
 def _capacity_and_slices(ctx, py):
